@@ -280,6 +280,16 @@ func (bkt *Bucket) checkForDump(dumpthreshold int) bool {
 // called by hstore, data already flushed
 func (bkt *Bucket) close() {
 	logger.Infof("closing bucket %s", bkt.Home)
+	// a rotated chunk is flushed by a goroutine spawned at rotation; it may not have run yet
+	for i := 0; i < bkt.datas.newHead; i++ {
+		dc := &bkt.datas.chunks[i]
+		dc.Lock()
+		pending := len(dc.wbuf) > 0
+		dc.Unlock()
+		if pending {
+			bkt.datas.flush(i, true)
+		}
+	}
 	bkt.datas.flush(-1, true)
 	datas, _ := filepath.Glob(fmt.Sprintf("%s/*.data", bkt.Home))
 	if len(datas) == 0 {
